@@ -12,8 +12,8 @@ RULE = ('2-3 real ActiveObjects, each with spied or un-spied states (drawn indep
         'in which objects subscribe to a signal before start_at, after it from a client thread, or from one of their own '
         'handlers, fifo and/or lifo, with 0-2 other objects already subscribed to the same signal, and publish from clients '
         'and from handlers, before and after start; delivery threads, consumers and clients are interleaved by the seeded '
-        'scheduler. Oracle: a subscription is counted from its effective point, defined conservatively (the subscribing call '
-        'returned, the object was started, and the whole system was idle once since); every publication whose publish() call '
+        'scheduler. Oracle: a subscription made on a started object counts from the moment subscribe() returned; one made before '
+        'start_at (it travels as a meta event) counts once the object was started and the system was idle since; every publication whose publish() call '
         'began after that point must appear in the subscriber\'s dispatch log exactly once per subscribed kind by quiescence, '
         'and never more often than it subscribed. Non-trivial = a publication with >= 1 effective subscriber; distinct = '
         'distinct (spied flags, where each subscription was made, who published from where) tuples.')
@@ -72,6 +72,11 @@ def generate(seed, stratum, tier):
     r = rng.random()
     if r < 0.45:
       c.append(['subscribe', i, 'SD', rng.choice(['fifo', 'lifo', None])])
+      if rng.random() < 0.4:
+        # a publication made as soon as subscribe() has returned (the chart may be busy: a post first)
+        if rng.random() < 0.5:
+          c.append(['post_fifo', i, 'SA'])
+        c.append(['publish', rng.randrange(nobj), 'SD', rng.choice([None, 1])])
     elif r < 0.7:
       objs[i]['react']['SB'] = [{'op': 'subscribe', 'sig': 'SD', 'kind': rng.choice(['fifo', 'lifo', None]), 'id': 1, 'max': 1}]
       c.append(['post_fifo', i, 'SB'])
@@ -142,6 +147,12 @@ def judge(sc, run, sim, res):
     asked[key] = min(asked.get(key, 10 ** 12), s['begin'])
     if s['end'] is None:
       continue
+    if not s['before_start'] and run.started[s['obj']] < s['begin']:
+      # subscribe() on a started object: publications made after the call returned must arrive
+      eff[key] = min(eff.get(key, 10 ** 12), s['end'])
+      continue
+    # subscribed before (or while) the object was started: the request travels as a meta event,
+    # it counts once the object was started and the system has been idle
     ready = max(s['end'], run.started[s['obj']])
     nxt = [q for q in idle_seqs if q > ready]
     if nxt:
